@@ -86,7 +86,7 @@ def generate(rng, tier):
     m = Model()
     base = "c"
     feats = set(rng.subset(["modrs", "path", "inline", "cfg_if", "cfg_match", "cfg_attr_path", "decoys", "skipmod",
-                            "innerskip", "ignore", "generated", "twice", "stemdir", "adversarial", "symlinkmod", "symlinkdir"], 45))
+                            "innerskip", "ignore", "generated", "twice", "stemdir", "adversarial", "symlinkmod", "symlinkdir", "fallbacksib"], 45))
     lane = rng.choice(["normal"] * 7 + ["skip_children", "stdin", "fault"])
     if lane == "fault":
         feats.discard("adversarial")  # a decoy at the fallback location would make a missing module resolvable
@@ -279,6 +279,22 @@ def generate(rng, tier):
             m.status[d] = "X"
             m.why[d] = "declared by no module (where folding `link/..` lexically would look)"
         m.feats.add("symlinkdir")
+    # two sibling files declaring a same-named child: one has no directory of its own, so its child is found through
+    # the fallback, next to it; the other has a proper nested child.  What was decided for the first must not be
+    # reused for the second (either declaration order)
+    if "fallbacksib" in feats and root_status == "E" and lane != "stdin":
+        fx, fy = os.path.join(childdir, "fsx.rs"), os.path.join(childdir, "fsy.rs")
+        if not any(p.startswith(os.path.join(childdir, "fsx") + "/") or p.startswith(os.path.join(childdir, "fsy") + "/") for p in m.files):
+            m.files[fx] = "mod fsfoo;\n" + body()
+            m.files[fy] = "mod fsfoo;\n" + body()
+            m.files[os.path.join(childdir, "fsfoo.rs")] = body()
+            m.files[os.path.join(childdir, "fsy", "fsfoo.rs")] = "mod fsdeep;\n" + body()
+            m.files[os.path.join(childdir, "fsy", "fsfoo", "fsdeep.rs")] = body()
+            m.files[root] = insert_decls(m.files[root], rng.choice(["mod fsx;\nmod fsy;\n", "mod fsx;\nmod fsy;\n", "mod fsy;\nmod fsx;\n"]))
+            for f in (fx, fy, os.path.join(childdir, "fsfoo.rs"), os.path.join(childdir, "fsy", "fsfoo.rs"),
+                      os.path.join(childdir, "fsy", "fsfoo", "fsdeep.rs")):
+                m.status[f] = "E"
+            m.feats.add("fallbacksib")
     # a file reached twice (same spelling / different spelling)
     twice = None
     if "twice" in feats and leafs and root_status == "E":
